@@ -238,7 +238,7 @@ TRIPLE_CLASSES = ["random", "random", "random", "del_vs_edit", "del_vs_edit", "i
                   "both_insert_dissimilar", "same_attachment", "same_meta_key", "same_output", "same_line",
                   "minor_diff", "retype", "empty_source", "both_append_outputs", "exec_count", "fixture",
                   "nbmeta_conflict", "out_meta_conflict", "multi_line_meta", "del_vs_transient", "del_vs_transient",
-                  "both_insert_lists"]
+                  "both_insert_lists", "nul_in_source"]
 
 
 def merge_triple(gen, cls=None, minor=None, plain_eol=False):
@@ -346,6 +346,20 @@ def merge_triple(gen, cls=None, minor=None, plain_eol=False):
         for j, c_ in enumerate(ritems):
             rem["cells"].insert(pos + j, c_)
         info = {"pos": pos, "nlocal": len(litems), "nremote": len(ritems)}
+    elif cls == "nul_in_source":
+        # a NUL character inside a source (valid JSON, valid notebook): external text tools treat the text as binary
+        lines = ["line one of %d" % r.randrange(99), "binary \x00 payload pasted here", "line three", "line four"]
+        c = gen.cell(m, r.choice(["code", "markdown"]))
+        c["source"] = "\n".join(lines) + r.choice(["", "\n"])
+        pos = r.randrange(len(base["cells"]) + 1)
+        for nb in (base, loc, rem):
+            nb["cells"].insert(pos, copy.deepcopy(c))
+        ll, rl = list(lines), list(lines)
+        ll[0] += " local"
+        rl[r.choice([0, 2, 3])] += " remote"
+        loc["cells"][pos]["source"] = "\n".join(ll) + "\n"
+        rem["cells"][pos]["source"] = "\n".join(rl) + "\n"
+        info = {"pos": pos}
     elif cls == "insert_near":
         for side in (loc, rem):
             cc = r.random()
